@@ -180,6 +180,8 @@ func (r *run) dispatch(e Ev) {
 		r.restPatch(e)
 	case "parpatch":
 		r.parPatch(e)
+	case "patchsync":
+		r.patchSync(e)
 	case "rogue":
 		r.rogue(e)
 	case "reset":
